@@ -469,6 +469,24 @@ func (q *Query) text(sliced bool, wantModel bool, qfOnly bool) string {
 		for _, d := range q.Decls {
 			declared[d.Name] = true
 		}
+		// hub symbols (mentioned by a large share of the hypotheses, e.g. the receiver) do not propagate relevance
+		freq := map[string]int{}
+		for i := range asserts {
+			for s := range syms[i] {
+				freq[s]++
+			}
+		}
+		hubLimit := len(asserts) * 3 / 10
+		if hubLimit < 12 {
+			hubLimit = 12
+		}
+		for s, n := range freq {
+			if n > hubLimit && !rel[s] {
+				delete(declared, s)
+			} else if n > hubLimit && strings.HasPrefix(s, "p_") {
+				delete(declared, s)
+			}
+		}
 		changed := true
 		for changed {
 			changed = false
